@@ -107,7 +107,7 @@ def assignable (t? : Option GoType) (elem : GoType) : Bool :=
   | some t => elem = .iface || t = elem
 
 def setNotAssignableMsg (t : GoType) (elem : GoType) : Bytes :=
-  str "reflect.Set: value of type " ++ str t.name ++ str " is not assignable to type " ++ str elem.name
+  str "reflect.Value.SetMapIndex: value of type " ++ str t.name ++ str " is not assignable to type " ++ str elem.name
 
 /-- the keys of a map that the first loop of the InputObject branch would reject, in list order -/
 def unknownKeys (fields : List FieldDef) : GoFields → List Bytes
